@@ -205,7 +205,8 @@ func genTxProc(r *core.Rng, nstmts int) *txProc {
 			if t.File == "" && len(t.Cols) > 1 {
 				p.Units = append(p.Units, fmt.Sprintf("UPDATE `%s` SET %s = 'kept';", t.Name, t.Cols[1]), dumpUnit(st, "c"), "COMMIT;")
 				committed = st.clone()
-				p.Units = append(p.Units, fmt.Sprintf("UPDATE `%s` SET %s = 'dropped';", t.Name, t.Cols[1]), fmt.Sprintf("DELETE FROM `%s` WHERE id = 1;", t.Name), "ROLLBACK;", dumpUnit(committed, "r"))
+				p.Units = append(p.Units, fmt.Sprintf("UPDATE `%s` SET %s = 'dropped';", t.Name, t.Cols[1]), fmt.Sprintf("DELETE FROM `%s` WHERE id = 1;", t.Name),
+					fmt.Sprintf("ALTER TABLE `%s` RENAME %s TO %sz;", t.Name, t.Cols[1], t.Cols[1]), "ROLLBACK;", dumpUnit(committed, "r"))
 				st = committed.clone()
 				break
 			}
